@@ -71,6 +71,24 @@ CLAIMED = {
          "check were repaired (fix commits 26b50a5, 3c15b09)."),
    ref="5 C19",
    note="Hand model coq/model/Estim.v tied by correspondence; Reals axioms; 'follows the analytic structure function' and peak location only tested."),
+ "C02": dict(
+   technique="Coq proof (matrix algebra over R) on a hand model with pinv as a contract + vm_compute correspondence",
+   text=("Machine-checked proofs, for all sizes, that R = C_on,off pinv(C_off,off) satisfies the normal equations on the retained subspace "
+         "pinv(K)K (from the Penrose identity) and exactly when K is inverted, that each row of R minimises the residual variance "
+         "sigma^2 - 2 r.c + r K r^T among all rows (difference = quadratic form of K, K symmetric PSD), and that an on-axis sensor duplicating "
+         "off-axis slopes is reproduced with zero weight elsewhere; the model (slicing, dot, recorded pinv) runs at binary64 against "
+         "create_tomographic_covariance_reconstructor and the object method, including histories of rebuilds."),
+   ref="5 C02",
+   note="numpy.linalg.pinv enters through its contract (Penrose identity / inverse), tested numerically; Reals axioms; end-to-end geometry inherits C01's guard."),
+ "C03": dict(
+   technique="Coq proof for every numeric carrier (permutation/list reasoning) + controlled-pool correspondence + bitwise differential runs",
+   text=("Machine-checked proofs, using no arithmetic law and hence valid bit-for-bit at binary64/32, that Pool.map's result is independent of the "
+         "completion order iff no task is lost, that the multi-process assembly equals the sequential one for every admissible schedule family, "
+         "that the task list is exactly the lower triangle of sensor pairs, and that in any history of SetThreads/Build/Recon operations every "
+         "Build returns the reference matrix. The mp path is run under a contract-only Pool with adversarial completion orders and compared "
+         "with the model; builds are compared bitwise across thread counts, schedules, histories and (thorough) real pools with injected delays."),
+   ref="5 C03",
+   note="Pool.map ordering is a contract (hypothesis: schedule is a permutation of the tasks); real OS scheduling only exercised, not modelled; pool leak reported only."),
 }
 NOT_YET = {}
 ALL = ["C%02d" % i for i in range(1, 21)]
